@@ -105,7 +105,8 @@ pub fn generate(seed: u64, thorough: bool, sink: &mut Sink) -> Vec<String> {
       stmts.push(s);
     }
     if stmts.is_empty() { continue; }
-    let k = 1 + rng.below(if thorough { 6 } else { 4 });
+    // step counts 0..k: a request for zero steps must change nothing
+    let k = rng.below(if thorough { 7 } else { 5 });
     cases.push(format!("steps\t{}\t{}", k, stmts.join(";;")));
     sink.hit(if stmts.iter().any(|s| !s.starts_with('D')) { "program:with-assignments" } else { "program:assignment-free" });
     if it < 4 { sink.sample(cases[cases.len() - 1].clone()); }
@@ -115,7 +116,7 @@ pub fn generate(seed: u64, thorough: bool, sink: &mut Sink) -> Vec<String> {
   let mut scratch = Sink::new();
   let per = if thorough { 3000 } else { 250 };
   let take = |cases: Vec<String>, n: usize| -> Vec<String> { let k = cases.len(); if k <= n { cases } else { let step = k / n; cases.into_iter().step_by(step.max(1)).take(n).collect() } };
-  let mut push = |class: &str, srcs: Vec<String>, rng: &mut Rng, sink: &mut Sink| { for s in srcs { sink.hit(&format!("resolve:{}", class)); let k = 1 + rng.below(3); cases.push(format!("resolve\t{}\t{}\t{}", k, class, hexs(&s))); } };
+  let mut push = |class: &str, srcs: Vec<String>, rng: &mut Rng, sink: &mut Sink| { for s in srcs { sink.hit(&format!("resolve:{}", class)); let k = rng.below(4); cases.push(format!("resolve\t{}\t{}\t{}", k, class, hexs(&s))); } };
   push("operators", take(crate::c01::generate(seed, thorough, &mut scratch), per * 3).iter().map(|c| crate::c01::source(c)).collect(), &mut rng, sink);
   push("indexing", take(crate::c03::generate(seed, thorough, &mut scratch), per).iter().map(|c| crate::c03::source(c)).collect(), &mut rng, sink);
   push("matrix-literals", take(crate::c11::generate(seed, thorough, &mut scratch), per).iter().map(|c| crate::c11::source(c)).collect(), &mut rng, sink);
